@@ -73,7 +73,11 @@ def gen_roundtrip(rng):
     if rng.random() < 0.2:
         times.append(times[0])        # the same checkpoint written again: the later content must be the one on disk
     for t in times:
-        writes.append(dict(layout=rng.choice(names), t=t, name=rng.choice(['grid', 'grid', 'phi'])))
+        wr = dict(layout=rng.choice(names), t=t, name=rng.choice(['grid', 'grid', 'phi']))
+        if len(names) > 1 and rng.random() < 0.3:
+            # the layout is reached through save / layout change / restore rather than through setLayout
+            wr['via_restore'] = rng.choice([n for n in names if n != wr['layout']])
+        writes.append(wr)
     c.update(kind='roundtrip', ops=[], nprocs2=np2, P2=int(np.prod(np2)), writes=writes)
     c['P'] = max(c['P'], c['P2'])
     c['P1'] = int(np.prod(c['nprocs']))
@@ -89,10 +93,15 @@ def run_roundtrip(case, tape):
             from pygyro.model.grid import Grid
             h = c01.build_handler(comm, case)
             eta = [np.arange(n, dtype=float) for n in shape]
-            grid = Grid(eta, [], h, case['writes'][0]['layout'], comm, dtype=dt)
+            anyvia = any(wr.get('via_restore') for wr in case['writes'])
+            grid = Grid(eta, [], h, case['writes'][0]['layout'], comm, dtype=dt, allocateSaveMemory=anyvia)
             for i, wr in enumerate(case['writes']):
                 if grid.currentLayout != wr['layout']:
                     grid.setLayout(wr['layout'])
+                if wr.get('via_restore'):
+                    grid.saveGridValues()
+                    grid.setLayout(wr['via_restore'])
+                    grid.restoreGridValues()
                 G = cm.global_array(shape, case['dtype'], salt=i)
                 grid.getAllData()[:] = cm.local(G, h.getLayout(wr['layout']))
                 grid.writeH5Dataset(folder, wr['t'], wr['name'])
@@ -138,7 +147,11 @@ def run_roundtrip(case, tape):
                     final[(wr['name'], wr['t'])] = i
                 for (name, t), i in sorted(final.items()):
                     wr = case['writes'][i]
-                    grid = Grid(eta, [], h, wr['layout'], comm, dtype=dt)
+                    grid = Grid(eta, [], h, wr['layout'], comm, dtype=dt, allocateSaveMemory=bool(wr.get('via_restore')))
+                    if wr.get('via_restore'):
+                        grid.saveGridValues()
+                        grid.setLayout(wr['via_restore'])
+                        grid.restoreGridValues()
                     cm.poison(grid.getAllData())
                     grid.loadFromFile(folder, t, name)
                     G = cm.global_array(shape, case['dtype'], salt=i)
@@ -165,6 +178,8 @@ def run_roundtrip(case, tape):
         probes['load_on_different_process_count'] = 1
     if any(w['t'] >= 1000000 for w in case['writes']):
         probes['time_7plus_digits'] = 1
+    if any(w.get('via_restore') for w in case['writes']):
+        probes['checkpoint_after_restore'] = 1
     return M.finish(extra=dict(nontrivial=max(case['P1'], case['P2']) > 1, probes=probes))
 
 
